@@ -8,13 +8,14 @@ package storage
 // manager; memTablePool.maxStamp = largest sequence number ever passed to the memtable pool, lastStamp = the most
 // recent one, inserts = number of pool inserts (ghost fields of MemTablePool, maintained by its Put/Delete contracts).
 //@ ghost field (*Manager) lastIssued uint64
-//@ predicate SeqInv(m *Manager) = m.wal != nil && m.memTablePool != nil && m.lastSeqNum <= m.lastIssued && m.memTablePool.maxStamp <= m.lastIssued && m.lastIssued < m.wal.nextSequence
+//@ predicate PoolReady(m *Manager) = m.memTablePool != nil && m.memTablePool.active != nil && m.memTablePool.active.skipList != nil && lockstate(m.memTablePool.mu) == 0 && lockstate(m.memTablePool.active.mu) == 0
+//@ predicate SeqInv(m *Manager) = m.wal != nil && PoolReady(m) && m.lastSeqNum <= m.lastIssued && m.memTablePool.maxStamp <= m.lastIssued && m.lastIssued < m.wal.nextSequence
 
 // The last sequence number reported by statistics never decreases.
 //@ monotone[C08] (*Manager).lastSeqNum
 
 //@ func (*Manager).Put$1
-//@   requires SeqInv(m)
+//@   requires SeqInv(m) && lockset(m.mu, W)
 //@   ensures[C08] SeqInv(m)
 //@   ensures[C08] err == nil ==> m.memTablePool.lastStamp > old(m.memTablePool.maxStamp) && m.memTablePool.maxStamp == m.memTablePool.lastStamp
 //@   ensures[C08,C06] err != nil ==> m.memTablePool.maxStamp == old(m.memTablePool.maxStamp)
@@ -22,7 +23,7 @@ package storage
 //@   ghost after call (*WAL).Append#1: m.lastIssued = ite(err == nil, result0, m.lastIssued)
 
 //@ func (*Manager).Delete$1
-//@   requires SeqInv(m)
+//@   requires SeqInv(m) && lockset(m.mu, W)
 //@   ensures[C08] SeqInv(m)
 //@   ensures[C08] err == nil ==> m.memTablePool.lastStamp > old(m.memTablePool.maxStamp) && m.memTablePool.maxStamp == m.memTablePool.lastStamp
 //@   ensures[C08,C06] err != nil ==> m.memTablePool.maxStamp == old(m.memTablePool.maxStamp)
@@ -32,7 +33,7 @@ package storage
 // A batch consumes one number shared by its entries: every stamp s of the batch satisfies
 // old(maxStamp) < s <= lastIssued' < next'.
 //@ func (*Manager).ApplyBatch$1
-//@   requires SeqInv(m)
+//@   requires SeqInv(m) && lockset(m.mu, W)
 //@   ensures[C08] SeqInv(m)
 //@   ensures[C08] err == nil ==> m.memTablePool.maxStamp == old(m.memTablePool.maxStamp) || (m.memTablePool.maxStamp == m.memTablePool.lastStamp && m.memTablePool.lastStamp == m.lastIssued && m.memTablePool.lastStamp > old(m.memTablePool.maxStamp))
 //@   ensures[C08,C06] err != nil ==> m.memTablePool.maxStamp == old(m.memTablePool.maxStamp)
@@ -47,22 +48,22 @@ package storage
 //@ func (*Manager).RetryOnWALRotating
 //@   inline
 //@ loop (*Manager).RetryOnWALRotating#1
-//@   invariant[C08] SeqInv(m) && m.memTablePool.maxStamp == old(m.memTablePool.maxStamp) && m.lastSeqNum >= old(m.lastSeqNum)
+//@   invariant[C08] SeqInv(m) && m.memTablePool.maxStamp == old(m.memTablePool.maxStamp) && m.lastSeqNum >= old(m.lastSeqNum) && lockset(m.mu, W)
 
 //@ func (*Manager).Put
-//@   requires SeqInv(m)
+//@   requires SeqInv(m) && lockset()
 //@   ensures[C08] SeqInv(m)
 //@   ensures[C08] err == nil ==> m.memTablePool.lastStamp > old(m.memTablePool.maxStamp) && m.memTablePool.maxStamp == m.memTablePool.lastStamp
 //@   ensures[C08,C06] err != nil ==> m.memTablePool.maxStamp == old(m.memTablePool.maxStamp)
 //@   ensures[C08] m.lastSeqNum >= old(m.lastSeqNum)
 //@ func (*Manager).Delete
-//@   requires SeqInv(m)
+//@   requires SeqInv(m) && lockset()
 //@   ensures[C08] SeqInv(m)
 //@   ensures[C08] err == nil ==> m.memTablePool.lastStamp > old(m.memTablePool.maxStamp) && m.memTablePool.maxStamp == m.memTablePool.lastStamp
 //@   ensures[C08,C06] err != nil ==> m.memTablePool.maxStamp == old(m.memTablePool.maxStamp)
 //@   ensures[C08] m.lastSeqNum >= old(m.lastSeqNum)
 //@ func (*Manager).ApplyBatch
-//@   requires SeqInv(m)
+//@   requires SeqInv(m) && lockset()
 //@   ensures[C08] SeqInv(m)
 //@   ensures[C08] err == nil ==> m.memTablePool.maxStamp == old(m.memTablePool.maxStamp) || (m.memTablePool.maxStamp == m.memTablePool.lastStamp && m.memTablePool.lastStamp > old(m.memTablePool.maxStamp))
 //@   ensures[C08,C06] err != nil ==> m.memTablePool.maxStamp == old(m.memTablePool.maxStamp)
@@ -80,7 +81,8 @@ package storage
 //@   requires m.wal != nil && m.wal.nextSequence >= 1 && m.lastSeqNum == 0 && m.memTablePool != nil
 //@   ensures[C08] err == nil && m.lastSeqNum < wal.MaxSequenceNumber ==> m.wal != nil && m.wal.nextSequence > m.lastSeqNum && m.wal.nextSequence >= 1
 //@ func (*Manager).GetStorageStats
-//@   ensures[C08] m.lastSeqNum == old(m.lastSeqNum)
+//@   requires lockset() && m.memTablePool != nil
+//@   ensures[C08,C06] m.lastSeqNum == old(m.lastSeqNum)
 
 // ---- C01: reads go through the layers newest first: the memtable pool (active, then immutables newest to
 // oldest), then the table files from the last loaded/flushed (newest) to the first; the first layer that holds
@@ -90,7 +92,7 @@ package storage
 //@ predicate NoMemHas(m *Manager, k bstr) = !MTHas(m.memTablePool.active, k) && (forall i int :: 0 <= i && i < len(m.memTablePool.immutables) ==> !MTHas(m.memTablePool.immutables[i], k))
 //@ predicate PoolOK(m *Manager) = m.memTablePool != nil && m.memTablePool.active != nil && lockstate(m.memTablePool.mu) == 0 && lockstate(m.memTablePool.active.mu) == 0 && m.memTablePool.active.skipList != nil && (forall i int :: 0 <= i && i < len(m.memTablePool.immutables) ==> m.memTablePool.immutables[i] != nil && m.memTablePool.immutables[i].skipList != nil && lockstate(m.memTablePool.immutables[i].mu) == 0)
 //@ func (*Manager).Get
-//@   requires PoolOK(m) && !m.closed && (forall i int :: 0 <= i && i < len(m.sstables) ==> m.sstables[i] != nil)
+//@   requires lockset() && PoolOK(m) && !m.closed && (forall i int :: 0 <= i && i < len(m.sstables) ==> m.sstables[i] != nil)
 //@   ensures[C01] MTHas(m.memTablePool.active, bstr(key)) && MTDel(m.memTablePool.active, bstr(key)) ==> err == ErrKeyNotFound
 //@   ensures[C01] MTHas(m.memTablePool.active, bstr(key)) && !MTDel(m.memTablePool.active, bstr(key)) ==> err == nil && bstr(result0) == MTVal(m.memTablePool.active, bstr(key))
 //@   ensures[C01] NoMemHas(m, bstr(key)) && m.hit >= 0 ==> m.hit < len(m.sstables) && m.sstables[m.hit].has[bstr(key)] && (forall j int :: m.hit < j && j < len(m.sstables) ==> !m.sstables[j].has[bstr(key)])
@@ -102,3 +104,13 @@ package storage
 //@   invariant[C01] 0 - 1 <= i && i < len(m.sstables) && NoMemHas(m, bstr(key)) && m.hit == 0 - 1
 //@   invariant[C01] forall j int :: i < j && j < len(m.sstables) ==> !m.sstables[j].has[bstr(key)]
 //@   invariant[C01] forall j int :: 0 <= j && j < len(m.sstables) ==> m.sstables[j] != nil
+
+// ---- C06/C07: locking protocol of the storage manager.  A client goroutine enters holding no lock
+// (lockset()); Put/Delete/ApplyBatch hold m.mu exclusively from before the log append until after the memtable
+// insert (the closures run with exactly m.mu held); Get/IsDeleted hold it shared for their whole body.
+//@ guarded (*Manager).sstables by mu
+//@ guarded (*Manager).immutableMTs by mu
+//@ guarded (*Manager).lastSeqNum by mu
+//@ func (*Manager).scheduleFlush
+//@   requires PoolReady(m) && lockset(m.mu, W)
+//@   ensures[C06,C07] PoolReady(m) && err == nil
